@@ -40,7 +40,9 @@ CODES = {1: "outcome class differs from the model", 2: "the peer received other 
          3: "the record's address/port/version differ", 4: "Scan took longer than the model's logical duration + slack",
          105: "(info) Scan returned earlier than the model's logical duration"}
 OBS = {0: "report", 1: "nothing", 2: "dial-timeout", 3: "dial-refused", 4: "dial-error", 5: "linger-error", 6: "io-timeout",
-       7: "EOF", 8: "unexpected-EOF", 9: "reset", 10: "cancelled", 11: "HANG", 12: "out-of-fuel", 98: "harness-error",
+       7: "EOF", 8: "unexpected-EOF", 9: "reset", 10: "cancelled", 11: "HANG", 12: "out-of-fuel",
+       13: "typed-nil-result (err == nil, result != nil as an interface but a nil pointer inside)", 14: "CRASH of the sx process",
+       98: "harness-error",
        99: "unclassified-error"}
 
 
@@ -96,6 +98,9 @@ def spec_e2e(o):
         r = o["rec"] or {}
         if r.get("ip") != o["ip"] or r.get("port") != o["port"] or r.get("version") != 5 or r.get("scan") != "socks":
             return "sx socks printed %s for the probed %s:%s" % (r, o["ip"], o["port"])
+    elif obs == 14:
+        return "%s -- against a peer whose reply starts with %s; no record may be printed for it and the scan must go on" % (
+            o["err"], " ".join("%02x" % b for b in (st or [])[:2]) or "nothing")
     elif obs == 11:
         return "sx socks did not exit (%s)" % o["err"]
     elif st is not None and st[:2] == [5, 0]:
@@ -113,6 +118,13 @@ def spec_on_impl(o):
     if obs >= 98:
         return None  # harness trouble is reported as a broken tie, not as a property failure
     st = sent_stream(o)
+    if obs == 13:
+        return ("Scan returned err == nil and a scan.Result that is != nil AS AN INTERFACE (it holds a nil pointer) for a peer "
+                "whose reply starts with %s: the scan engine's `result != nil` emits it as a record although the reply is not "
+                "05 00%s" % (" ".join("%02x" % b for b in (st or [])[:2]),
+                            ", and printing it panics (%s)" % o["print_panic"] if o.get("print_panic") else ""))
+    if obs == 0 and o.get("print_panic"):
+        return "printing the record of this probe panics: %s" % o["print_panic"]
     if obs == 0:
         if st is None:
             return "an endpoint that never accepted the connection is reported"
@@ -285,7 +297,31 @@ def conc_stage(ctx, probes, ms, tag="conc", goroutines=64):
     if not rows:
         return None
     rows[0]["bad"] = rows[0].get("bad") or []
+    rows[0]["engine"] = rows[1] if len(rows) > 1 else None
     return rows[0]
+
+
+ENGINE_KEY = "engine:record-for-non-socks-answer"
+
+
+def judge_engine(e):
+    if e and e.get("bad"):
+        g = e["bad"][0]
+        return ("through the real scan.NewScanEngine + NewResultChan stage (as `sx socks` builds it): %s (peer %s:%d)" % (
+            g["what"], g["ip"], g["port"]))
+    return None
+
+
+def report_engine(ctx, e, why):
+    if any(f["key"] == ENGINE_KEY for f in ctx.findings):
+        return
+    path = ctx.write_replay("engine", {
+        "property": "C09", "what": why,
+        "input": {"engine": True, "workers": e["workers"],
+                  "peers": [{"reply": g["peer_reply"], "requests": g["requests"]} for g in e["groups"]],
+                  "note": "one persistent loopback peer per kind of answer; each probed `requests` times through the engine"},
+        "observed": e["groups"], "replay_cmd": "bin/check C09 --replay <this file>"})
+    ctx.findings.append({"key": ENGINE_KEY, "what": why, "replay": path})
 
 
 def judge_conc(r):
@@ -325,6 +361,16 @@ def run_conc(ctx, probes, ms, tag="conc"):
         why = judge_conc(r)
         if why:
             report_conc(ctx, r, why)
+        e = r.get("engine")
+        if e:
+            ctx.count("engine", ("engine", tag), nontrivial=True,
+                      sample={"class": "engine", "workers": e["workers"],
+                              "records_per_answer": {" ".join("%02x" % b for b in g["peer_reply"]): g["records_on_result_channel"]
+                                                     for g in e["groups"]}})
+            ctx.cov["evaluations"] += sum(g["requests"] for g in e["groups"]) - 1
+            why = judge_engine(e)
+            if why:
+                report_engine(ctx, e, why)
     return r
 
 
@@ -712,6 +758,14 @@ def replay(ctx, path):
         print("replay peer-vanishes stage: %s -> %s" % (
             [(x.get("sub"), "returned after %.0f ms" % x["dur_ms"] if x.get("returned") else "NOT returned after %.0f ms" % x.get("dur_ms", 0),
               x.get("err", "")[:60], x.get("unavailable", "")) for x in rows], why or "property holds on this input"))
+        return 1 if why else 0
+    if r["input"].get("engine"):
+        row = conc_stage(ctx, 2000, 3000, "engine_replay")
+        e = (row or {}).get("engine")
+        why = judge_engine(e)
+        print("replay engine stage: records on the result channel per peer answer: %s -> %s" % (
+            {" ".join("%02x" % b for b in g["peer_reply"]): g["records_on_result_channel"] for g in (e or {}).get("groups", [])},
+            why or "property holds on this input"))
         return 1 if why else 0
     if r["input"].get("concurrent"):
         for k in range(2):
